@@ -82,6 +82,12 @@ Engine/SearchDriver.vos Engine/SearchDriver.vok Engine/SearchDriver.required_vos
 Engine/SearchDriverProofs.vo Engine/SearchDriverProofs.glob Engine/SearchDriverProofs.v.beautified Engine/SearchDriverProofs.required_vo: Engine/SearchDriverProofs.v Gen/Consts.vo Engine/SearchDriver.vo
 Engine/SearchDriverProofs.vio: Engine/SearchDriverProofs.v Gen/Consts.vio Engine/SearchDriver.vio
 Engine/SearchDriverProofs.vos Engine/SearchDriverProofs.vok Engine/SearchDriverProofs.required_vos: Engine/SearchDriverProofs.v Gen/Consts.vos Engine/SearchDriver.vos
+Engine/StopProofs.vo Engine/StopProofs.glob Engine/StopProofs.v.beautified Engine/StopProofs.required_vo: Engine/StopProofs.v Engine/StopProtocol.vo
+Engine/StopProofs.vio: Engine/StopProofs.v Engine/StopProtocol.vio
+Engine/StopProofs.vos Engine/StopProofs.vok Engine/StopProofs.required_vos: Engine/StopProofs.v Engine/StopProtocol.vos
+Engine/StopProtocol.vo Engine/StopProtocol.glob Engine/StopProtocol.v.beautified Engine/StopProtocol.required_vo: Engine/StopProtocol.v 
+Engine/StopProtocol.vio: Engine/StopProtocol.v 
+Engine/StopProtocol.vos Engine/StopProtocol.vok Engine/StopProtocol.required_vos: Engine/StopProtocol.v 
 Engine/TimeMgr.vo Engine/TimeMgr.glob Engine/TimeMgr.v.beautified Engine/TimeMgr.required_vo: Engine/TimeMgr.v 
 Engine/TimeMgr.vio: Engine/TimeMgr.v 
 Engine/TimeMgr.vos Engine/TimeMgr.vok Engine/TimeMgr.required_vos: Engine/TimeMgr.v 
@@ -187,6 +193,9 @@ Props/Properties_C04.vos Props/Properties_C04.vok Props/Properties_C04.required_
 Props/Properties_C05.vo Props/Properties_C05.glob Props/Properties_C05.v.beautified Props/Properties_C05.required_vo: Props/Properties_C05.v Gen/Consts.vo Engine/SearchDriver.vo Engine/SearchDriverProofs.vo
 Props/Properties_C05.vio: Props/Properties_C05.v Gen/Consts.vio Engine/SearchDriver.vio Engine/SearchDriverProofs.vio
 Props/Properties_C05.vos Props/Properties_C05.vok Props/Properties_C05.required_vos: Props/Properties_C05.v Gen/Consts.vos Engine/SearchDriver.vos Engine/SearchDriverProofs.vos
+Props/Properties_C06.vo Props/Properties_C06.glob Props/Properties_C06.v.beautified Props/Properties_C06.required_vo: Props/Properties_C06.v Gen/Layout.vo Gen/LayoutAst.vo Engine/StopProtocol.vo Engine/StopProofs.vo
+Props/Properties_C06.vio: Props/Properties_C06.v Gen/Layout.vio Gen/LayoutAst.vio Engine/StopProtocol.vio Engine/StopProofs.vio
+Props/Properties_C06.vos Props/Properties_C06.vok Props/Properties_C06.required_vos: Props/Properties_C06.v Gen/Layout.vos Gen/LayoutAst.vos Engine/StopProtocol.vos Engine/StopProofs.vos
 Props/Properties_C07.vo Props/Properties_C07.glob Props/Properties_C07.v.beautified Props/Properties_C07.required_vo: Props/Properties_C07.v Chess/Rules.vo Chess/History.vo Chess/RulesFacts.vo
 Props/Properties_C07.vio: Props/Properties_C07.v Chess/Rules.vio Chess/History.vio Chess/RulesFacts.vio
 Props/Properties_C07.vos Props/Properties_C07.vok Props/Properties_C07.required_vos: Props/Properties_C07.v Chess/Rules.vos Chess/History.vos Chess/RulesFacts.vos
